@@ -523,4 +523,4 @@ def get_datetime_parser(java_time_format):
     python_pattern = ""
     for token, _ in JAVA_TIME_FORMAT_TOKENS.findall(java_time_format):
         python_pattern += FORMAT_MAPPING.get(token, token)
-    return lambda value: datetime.datetime.strptime(value, python_pattern)
+    return lambda value: None if value is None else datetime.datetime.strptime(value, python_pattern)
